@@ -21,6 +21,7 @@ func main() {
 	ll := flag.Int("log", 1, "log level")
 	disk := flag.Bool("disk", false, "load through analysis.LoadProgram")
 	serve := flag.Bool("serve", false, "serve analysis requests (JSON lines on stdin/stdout)")
+	step := flag.String("step", "", "run one step of the C07 analysis list (e.g. backtrace-eager) instead of taint")
 	flag.Parse()
 	if *serve {
 		core.ServeWorker()
@@ -34,6 +35,12 @@ func main() {
 		b, _ := os.ReadFile(m)
 		files[filepath.Base(m)] = string(b)
 		names = append(names, filepath.Base(m))
+	}
+	if *step != "" {
+		for _, r := range core.RunAllAnalyses(files, *step) {
+			fmt.Printf("pairs: step %s done in %.2fs err=%q panic=%q\n", r.Step, r.Seconds, r.Err, r.Panic)
+		}
+		return
 	}
 	opts := core.TaintOpts{FieldSensitive: *fs, OnDemand: *od, UseEscape: *esc, LogLevel: *ll}
 	if *san != "" {
